@@ -260,7 +260,7 @@ func main() {
 			rels = append(rels, rel)
 		}
 		sort.Strings(rels)
-		nCold := evid.Pick(8, 40)
+		nCold := evid.Pick(20, 60)
 		for k := 0; k < nCold; k++ {
 			wg.Add(1)
 			sem <- struct{}{}
@@ -467,13 +467,31 @@ func cold(dir, shift string, rels []string) {
 	start := make(chan struct{})
 	out := make([]coldObs, len(jobs))
 	var wg sync.WaitGroup
+	// callers with equally long function lists (always the case when they share a file) are
+	// re-aligned before every function, so that each step into new territory is taken together
+	minFns := -1
+	for _, j := range jobs {
+		if minFns < 0 || len(j.fns) < minFns {
+			minFns = len(j.fns)
+		}
+	}
+	var gates []*sync.WaitGroup
+	for x := 0; x < minFns; x++ {
+		g := &sync.WaitGroup{}
+		g.Add(len(jobs))
+		gates = append(gates, g)
+	}
 	for i, j := range jobs {
 		wg.Add(1)
 		go func(i int, j job) {
 			defer wg.Done()
 			<-start
 			var rs []diff.FingerprintResult
-			for _, fn := range j.fns {
+			for x, fn := range j.fns {
+				if x < len(gates) {
+					gates[x].Done()
+					gates[x].Wait()
+				}
 				rs = append(rs, diff.GenerateFingerprint(fn, fp.Policies[j.pol], false))
 			}
 			out[i] = coldObs{j.rel, j.pol, triples(rs)}
